@@ -526,10 +526,58 @@ def check_innermost(ctx):
     return obs
 
 
+def dedup_key_rule(ctx):
+    """`if !coll.iter().any(|x| x == K1) { coll.push(K2) }`: the key that is tested is the key that is stored"""
+    ob = ctx.ob
+    tc = ctx.tc
+    obs = []
+    k = 0
+
+    def norm(e):
+        e = sir.strip_ref(e)
+        while e.get("k") == "mcall" and e["m"] in ("to_string", "clone", "to_owned", "as_str", "into") and not e["args"]:
+            e = sir.strip_ref(e["recv"])
+        return sir.expr_str(e).replace(" ", "")
+    for f in tc.fns:
+        if not f.body or f.module[:1] != ["proc_gen"]:
+            continue
+        for n in sir.walk(f.body):
+            if n.get("k") != "if" or n["cond"].get("k") != "unary" or n["cond"].get("op") != "!":
+                continue
+            c = n["cond"]["e"]
+            if not (c.get("k") == "mcall" and c["m"] == "any" and c["args"] and c["args"][0].get("k") == "closure"):
+                continue
+            coll = c["recv"]
+            while coll.get("k") == "mcall" and coll["m"] in ("iter", "into_iter"):
+                coll = coll["recv"]
+            cl = c["args"][0]
+            params = [b for pp in cl["params"] for b, _ in sir.pat_bindings(pp)]
+            body = cl["body"]
+            if body.get("k") == "block" and len(body["stmts"]) == 1:
+                body = body["stmts"][0].get("e", body)
+            if not (body.get("k") == "binary" and body.get("op") == "=="):
+                continue
+            sides = [body["l"], body["r"]]
+            key1 = [x for x in sides if sir.root_expr_name(sir.strip_ref(x)) not in params]
+            pushes = [x for x in sir.walk(n["then"]) if x.get("k") == "mcall" and x["m"] == "push" and sir.expr_str(x["recv"]) == sir.expr_str(coll)]
+            if len(key1) != 1 or len(pushes) != 1:
+                continue
+            k += 1
+            k1, k2 = norm(key1[0]), norm(pushes[0]["args"][0])
+            okk = k1 == k2
+            obs.append(ob("C05.mirror/gen/dedup-key/%s/%s" % (f.qual.split("::")[-1], sir.expr_str(coll)), okk, ctx.where(f),
+                          "`%s` is searched for `%s` and receives `%s`" % (sir.expr_str(coll), k1, k2) + ("" if okk else ": an entry is skipped because a different value happens to be present"),
+                          witness=None if okk else "<c><a slot:v/><b slot:w=\"v\">{{v}}</b></c>: the slot variable of `w` is never declared"))
+    if k < 1:
+        obs.append(ob("C05.floor/dedup", False, "proc_gen/tag.rs", "no de-duplicating collection found (floor 1)"))
+    return obs
+
+
 def run(ctx):
     obs, _model, _its = check_iterators(ctx)
     obs += check_mirror(ctx)
     obs += check_innermost(ctx)
+    obs += dedup_key_rule(ctx)
     n_children = sum(1 for o in obs if o["key"].startswith("C05.children/"))
     if n_children < 88:
         obs.append(ctx.ob("C05.floor/children", False, "parse/expr.rs", "only %d variant x iterator obligations (floor 88 = 44 variants x 2 iterators)" % n_children))
